@@ -395,6 +395,10 @@ func (s *Lexer) getNextToken() (*Token, error) {
 			buf.WriteRune(ch)
 			current_state = SBLOCKCOMMENTFINAL
 			break
+		} else if current_state == SBLOCKCOMMENTENDEND && ch == ')' {
+			// ")-" was not the terminator, but this ')' may start it
+			buf.WriteRune(ch)
+			current_state = SBLOCKCOMMENTSTARTEND
 		} else if current_state == SBLOCKCOMMENTENDEND || current_state == SBLOCKCOMMENTSTARTEND {
 			buf.WriteRune(ch)
 			current_state = SBLOCKCOMMENT
